@@ -4,7 +4,7 @@
    class, or per peak: window, chosen models, assessment, popt, statistics, message) is compared
    with what the implementation returned.  Nothing here is proved; it is evaluated by vm_compute. *)
 From Coq Require Import QArith Qabs ZArith String List Bool Floats.
-From Verif.C17 Require Import Model QFun.
+From Verif.C17 Require Import Model ModelOrder QFun.
 Import ListNotations.
 Open Scope string_scope.
 Open Scope Q_scope.
@@ -35,10 +35,14 @@ Inductive robs := RRaise (cls : string) | ROut (ys : list Q).
 Record rres := mkRR { rr_res : fitres; rr_vals : list Q }.
 Record rcase := mkRC { rc_label : string; rc_hasvar : bool; rc_data : list (Q * Q); rc_results : list rres;
                        rc_obs : robs; rc_after : list Q }.
+(* one (peak, background) combination of the model lists fitted ON ITS OWN by the implementation (single-model
+   specification, the windows of the list call given explicitly): its per-peak results *)
+Record solo := mkS { s_pk : mkind; s_bk : mkind; s_res : list fitres }.
 Record fcase := mkF {
   c_data : list pt; c_est : list Q; c_wspec : wspec; c_obswin : option (list (Q * Q));
   c_bspec : mspec; c_pspec : mspec; c_fp : fit_parameters; c_fr : fit_requirements;
-  c_trace : list tentry; c_cdf : list centry; c_obs : obs; c_removes : list rcase }.
+  c_trace : list tentry; c_cdf : list centry; c_obs : obs; c_removes : list rcase;
+  c_solos : list solo }.
 
 (* ------------------------------------------------------------------ equality helpers *)
 Definition pkind_eqb (a b : pkind) : bool :=
@@ -250,6 +254,62 @@ Definition check_fit (c : fcase) : string :=
          | None => "MISMATCH fixed-order-model{" ++ r ++ "} as-found-model{" ++ ro ++ "}"
          end.
 
+(* ------------------------------------------------------------------ model selection: product order, first success wins
+   The implementation's result for LISTS of models must be ModelOrder.first_success of the implementation's own
+   results for every combination fitted alone, taken in the order Model.candidates (peak outer, background inner;
+   ProofsOrder.fit_peak_is_first_success_of_solo_fits).  No oracle is involved: only results of the public function
+   are compared (exactly: window, assessment, models, message; popt and statistics to 1e-9). *)
+Definition solo_for (ss : list solo) (pb : mkind * mkind) : option (list fitres) :=
+  match find (fun s => mkind_eqb (s_pk s) (fst pb) && mkind_eqb (s_bk s) (snd pb)) ss with
+  | Some s => Some (s_res s)
+  | None => None
+  end.
+Fixpoint opt_all {A} (l : list (option A)) : option (list A) :=
+  match l with
+  | [] => Some []
+  | None :: _ => None
+  | Some a :: t => match opt_all t with Some r => Some (a :: r) | None => None end
+  end.
+(* the same call repeated: parameters to 1e-9 (they are bit-identical in practice) *)
+Definition popt_close : list (string * xnum) -> list (string * xnum) -> bool :=
+  list_eqb (fun a b => String.eqb (fst a) (fst b) && xclose TOL (snd a) (snd b)).
+Definition cmp_res_repeat (m o : fitres) : string :=
+  cmp_res (mkRes (r_assess m) (r_peak m) (r_bkg m) (r_window m)
+                 (if popt_close (r_popt m) (r_popt o) then r_popt o else r_popt m) (r_stats m) (r_msg m)) o.
+Definition rname (r : fitres) : string := aname (r_assess r) ++ "/" ++ kname (r_peak r) ++ "+" ++ kname (r_bkg r).
+Fixpoint order_go (i : nat) (cols : list (list fitres)) (os : list fitres) : string :=
+  match os with
+  | [] => ""
+  | o :: ot =>
+      match opt_all (map (fun col => nth_error col i) cols) with
+      | None => "peak" ++ Model.nat_str i ++ " a-single-combination-call-returned-fewer-results"
+      | Some rs =>
+          match first_success rs with
+          | None => "no-candidate-models"
+          | Some r =>
+              let c := cmp_res_repeat r o in
+              if String.eqb c "" then order_go (S i) cols ot
+              else "peak" ++ Model.nat_str i ++ " first-success-in-documented-order=" ++ rname r
+                   ++ " list-spec-result=" ++ rname o ++ " differs-in{" ++ c ++ "} single-fits=["
+                   ++ String.concat "," (map rname rs) ++ "]"
+          end
+      end
+  end.
+Definition order_check (c : fcase) : string :=
+  match c_solos c, c_obs c with
+  | [], _ => ""
+  | _, ObsRaise _ => ""
+  | ss, ObsResults os =>
+      match parse_model_spec (c_bspec c), parse_model_spec (c_pspec c) with
+      | Ok bks, Ok pks =>
+          match opt_all (map (solo_for ss) (candidates pks bks)) with
+          | None => "ORDER a-combination-was-not-fitted-alone"
+          | Some cols => let r := order_go 0 cols os in if String.eqb r "" then "" else "ORDER " ++ r
+          end
+      | _, _ => "ORDER model-spec-refused-by-the-model"
+      end
+  end.
+
 (* ------------------------------------------------------------------ remove_peaks *)
 Definition res_key_eqb (a b : fitres) : bool :=
   Qeq_bool (fst (r_window a)) (fst (r_window b)) && Qeq_bool (snd (r_window a)) (snd (r_window b))
@@ -303,10 +363,9 @@ Definition check_remove (rc : rcase) : string :=
 Definition check (c : fcase) : string :=
   let f := check_fit c in
   let rs := filter (fun s => negb (String.eqb s "")) (map check_remove (c_removes c)) in
-  match rs with
-  | [] => f
-  | r :: _ => if String.eqb f "" then r else f ++ " & " ++ r
-  end.
+  let parts := filter (fun s => negb (String.eqb s ""))
+                      [f; order_check c; match rs with [] => "" | r :: _ => r end] in
+  String.concat " & " parts.
 
 (* "OK <n>" or "F<i>:<reason>;..." (same convention as Verif.Sem.Corr.report) *)
 Fixpoint report_aux (i : nat) (rs : list string) (acc : string) (nfail : nat) : string * nat :=
